@@ -278,6 +278,12 @@ def main(tier=None, replay=None):
         traces.append(tr)
         keys.append('rand:' + gen.digest([e['act'] for e in tr]))
     ck.count('random-histories', len(traces) - nmodel)
+    # scale: pin positions beyond 8 and 16 bits on a small circuit (a wide macro cell), carried through pickle and copy
+    for wide in (300, 70000):
+        h = [['NewNode', 'macro', 'MACRO'], ['NewNode', 's', '__fork__'], ['NewNode', 't', '__fork__'], ['NewLine', 1, -1, 0, wide], ['NewLine', 0, wide, 2, -1],
+             ['Pickle'], ['Copy'], ['NewLine', 1, -1, 0, 3], ['Pickle']]
+        traces.append(replay_history(h))
+        keys.append('wide-pin-%d' % wide)
     for tr in traces:
         for e in tr:
             ck.count('edit:' + e['act'][0])
